@@ -52,9 +52,10 @@ PROPS["C05"] = dict(
           "'identical to the fault-free extraction' is covered only through the per-iteration step clauses (C10) plus append-only frames.",
     note=EI_NOTE + "; formatting of the result after a fault is C18/C19's subject")
 PROPS["C10"] = dict(
-    level="other", contracts=["contracts.extract_iter", "contracts.small_units"],
-    unit_filter=lambda u: u.name in ("C05.extract_iter", "C10.frame_iterator_next"),
-    legs=[dict(name="c10_model", cmd="PYTHONPATH={repo} " + PY312 + " legs/c10_model.py")], technique=TECH + "; bounded reference-interpreter leg",
+    level="other", contracts=["contracts.extract_iter", "contracts.small_units", "contracts.c12"],
+    unit_filter=lambda u: u.name in ("C05.extract_iter", "C10.frame_iterator_next", "C12.customize_it", "C12.customize"),
+    legs=[dict(name="c10_model", cmd="PYTHONPATH={repo} " + PY312 + " legs/c10_model.py"),
+          dict(name="c12_native", cmd="PYTHONPATH={repo} " + PY312 + " legs/c12_native.py")] + old_pythons("c10_model", "c10_model.py"), technique=TECH + "; bounded reference-interpreter leg",
     explanation="Deductive part (all queue contents and hook results, unbounded): the per-iteration step clauses C10.step.* (head frame "
                 "yielded; None keeps the rest; move-back in order; replace form = dropWhile by depth; insert form drops nothing and omits the "
                 "trailing next_inner with the depth rule; push at the frame's depth in order; unwrap step bookkeeping) and the guard <= 100. "
@@ -225,7 +226,8 @@ PROPS["C08"] = dict(
     note=BOUNDED_NOTE + "; the generated family uses simple name targets, the richer target forms come from the standard-library corpus")
 PROPS["C20"] = dict(
     level="exploration", contracts=["contracts.lowlevel"], unit_filter=lambda u: u.name.startswith("C20."),
-    legs=[g1("referents", PY312, "py312"), g1("referents", PY311, "py311"), g1("referents", PY310, "py310", vendor=True),
+    legs=[dict(name="c20_mode", cmd="PYTHONPATH={repo} " + PY312 + " legs/c20_mode.py"),
+          g1("referents", PY312, "py312"), g1("referents", PY311, "py311"), g1("referents", PY310, "py310", vendor=True),
           g1("referents", PY39, "py39", thorough_only=True, vendor=True)],
     technique=BOUNDED_TECH + "; containment and mode-switch obligations discharged deductively",
     explanation="Deductive part: contexts_active_in_frame contains every Exception of the trickery analysis (one InspectionWarning, then the referents fallback on the same frame / origin) and never calls the analysis when it is disabled; _contexts_active_by_referents (3.12 and 3.10 configurations) scans the referents of the generator object (3.11+) or the frame, emits exactly one Context per bound method named __exit__/__aexit__ in referent order with obj = its __self__ and is_async from the name, and appends the is_exiting placeholder last iff an exit call is in progress; set_trickery_enabled stores the setting under _trickery_lock; _check_trickery_available stores its verdict only under that lock and only over a cell it saw unset under the same acquisition (the global is read as volatile whenever the lock is not held), so a concurrent set_trickery_enabled is never overwritten. That the referents of a frame are what the property needs (interpreter behaviour) is the bounded stand-in's.",
